@@ -358,6 +358,12 @@ def c13_9(ctx):
     cols = [s for s in ast.walk(g.node) if isinstance(s, ast.Assign) and U(s.targets[0]) == 'd.columns']
     if not cols or N(cols[0].value) != 'range(d.shape[1])':
         ctx.fail(g, cols[0] if cols else g.node, 'the n stitched columns are not numbered 0..n-1')
+    else:
+        pm_ = parent_map(g.node)
+        par = pm_.get(cols[0])
+        if not isinstance(par, ast.For):
+            ctx.fail(g, par if par is not None else cols[0], 'the stitched columns are renumbered only when `%s`: window i must ALWAYS have columns 0..n-1 (named series would otherwise be aligned by name when the windows are stacked)' % (U(par.test) if isinstance(par, ast.If) else '?'),
+                     witness='df_slice of named series with n = 2')
     rr = returns_of(g.node)
     if not rr or U(rr[-1].value) != 'res':
         ctx.fail(g, g.node, 'df_slice does not return the sliced result')
